@@ -32,8 +32,33 @@ DISCIPLINE = {
 P2_LOOKUP_OR_CREATE = re.compile(r"(BTreeMap::<K, V, A>::entry|Option::<T>::get_or_insert_with|Option::<T>::get_or_insert|HashMap::<K, V, S, A>::entry)$")
 
 
-def _traversal_blocks(mb):
-    return [i for i, t in calls(mb) if callee_name(t).endswith("visit_mut_children_with")]
+def _is_visit_call(t):
+    n = callee_name(t)
+    return n.endswith("visit_mut_children_with") or n.endswith("::visit_mut_with")
+
+
+def _closure_traverses(mb, closure_path, facts):
+    cb = facts.mir_by_path.get((mb["crate"], closure_path))
+    return cb is not None and any(_is_visit_call(t) for i, t in calls(cb))
+
+
+def _traversal_blocks(mb, facts=None):
+    """blocks of the method in which the child traversal happens: a direct visit_mut_children_with / visit_mut_with call,
+    or a call that is handed a closure which performs such visits (e.g. `items.iter_mut().for_each(|i| i.visit_mut_with(self))`)"""
+    out = [i for i, t in calls(mb) if _is_visit_call(t)]
+    if out or facts is None:
+        return out
+    clos = {}
+    for blk in mb["blocks"]:
+        for s in blk["stmts"]:
+            if s["k"] == "assign" and s["rv"].get("rk") == "agg" and s["rv"].get("agg") == "closure":
+                clos[s["lhs"]["l"]] = s["rv"]["def"]
+    for i, t in calls(mb):
+        for a in t["args"]:
+            p = place_of(a)
+            if p is not None and p["l"] in clos and _closure_traverses(mb, clos[p["l"]], facts):
+                out.append(i)
+    return out
 
 
 def _method_bodies(ctx):
@@ -66,7 +91,10 @@ def r10_1(ctx):
         disc = DISCIPLINE.get(name)
         if disc is None:
             writers = [a for a in acc_outside_new if a["mut"] or a["kind"] == "store"]
-            if writers:
+            in_lowering = [a for a in acc_outside_new if (a["body"]["crate"], root_path(a["body"])) in lowering or "VisitMut>::visit_mut_expr" in root_path(a["body"])]
+            if writers and not in_lowering:
+                r.ob("field %s is classified" % name, True, "-", "new field, never touched by the JSX builders or anything they call (accessed in %s): it cannot influence a lowering" % sorted({root_path(a["body"]).split("::")[-1] for a in acc_outside_new})[:4])
+            elif writers:
                 r.ob("field %s is classified" % name, False, C.mloc(writers[0]["body"], writers[0]["node"]),
                      "mutable visitor field `%s: %s` has no state discipline on record: its influence on lowering is not shown to be local" % (name, f["ty"]))
             else:
@@ -89,8 +117,8 @@ def r10_1(ctx):
                     r.ob(key, True, C.mloc(a["body"], a["node"]), "emission in the module method")
                 elif a["kind"] == "call" and P2_LOOKUP_OR_CREATE.search(a["callee"]):
                     r.ob(key, True, C.mloc(a["body"], a["node"]), "lookup-or-create")
-                elif a["kind"] == "read" and a["node"]["rv"].get("rk") == "ref":
-                    # a bare borrow that only feeds an allowed call is reported through that call
+                elif a["kind"] == "read":
+                    # a borrow / copy of the reference: whatever consumes it (call, branch, store) is indexed on its own
                     continue
                 else:
                     r.ob(key, False, C.mloc(a["body"], a["node"]),
@@ -174,12 +202,15 @@ def _check_p3(ctx, r, name, acc):
                 continue
             hb, mb = host[0]
             g = C.cfg_of(ctx, mb)
-            tb = _traversal_blocks(mb)
+            tb = _traversal_blocks(mb, ctx.facts)
             if b is mb:
                 blocks = [i]
             else:
                 # a closure of the module method: locate where the closure is used (the call that receives it)
                 blocks = _closure_use_blocks(mb, b)
+                if any(_is_visit_call(tt) for _, tt in calls(b)):
+                    ok = False
+                    detail.append("%s is called from the closure that also performs the traversal: the scan is interleaved with the lowering of earlier items" % w.split("::")[-1])
             for blk in blocks:
                 after = any(blk in g.reach_after(tt) for tt in tb)
                 before = all(g.dominates(blk, tt) for tt in tb) if tb else False
@@ -205,7 +236,7 @@ def _check_scope(ctx, r, name):
     for hb, mb in _method_bodies(ctx):
         g = C.cfg_of(ctx, mb)
         fl = flow_of(ctx, mb)
-        tb = _traversal_blocks(mb)
+        tb = _traversal_blocks(mb, ctx.facts)
         takes = []
         stores = []
         for blk in mb["blocks"]:
@@ -353,7 +384,7 @@ def _check_window(ctx, r, name):
     for hb, mb in _method_bodies(ctx):
         g = C.cfg_of(ctx, mb)
         fl = flow_of(ctx, mb)
-        tb = _traversal_blocks(mb)
+        tb = _traversal_blocks(mb, ctx.facts)
         sets, clears = [], []
         for blk in mb["blocks"]:
             if blk.get("cleanup"):
@@ -456,7 +487,12 @@ def r10_2(ctx):
         if re.search(r"\b(Cell|RefCell|Mutex|RwLock|Atomic\w+|OnceCell)\b", f["ty"]) or "core::cell::" in f["ty"]:
             d = DISCIPLINE.get(f["name"])
             ok = d is not None and d[0] == "resolver-internal"
-            r.ob("interior-mutable field %s" % f["name"], ok, "-", (d[1] if ok else "interior mutability in a field that lowering can reach through &self"))
+            if not ok:
+                lowering = _lowering_bodies(ctx)
+                acc = access_index(ctx).get(f["name"], [])
+                touched = [a for a in acc if (a["body"]["crate"], root_path(a["body"])) in lowering]
+                ok = not touched
+            r.ob("interior-mutable field %s" % f["name"], ok, "-", (d[1] if d and ok else ("not accessed by the JSX builders or their callees" if ok else "interior mutability in a field that lowering code accesses through &self")))
     n = 0
     for it in F.items:
         if it["crate"] == VISITOR_CRATE and it.get("kind") == "static" and not it.get("mac"):
